@@ -121,7 +121,8 @@ LIB = ["LeanString::clear", "Drop::drop", "Clone::clone", "Clone::clone_from", "
 COMPOSE = ("whole-operation claims for shared/static pre-states of push_str/insert_str/remove/retain are the Hoare composition of "
            "the callee contract (reserve / ensure_modifiable, proved on the real callee for all storage kinds), the call-protocol "
            "obligations (called once, right argument, nothing written before, no allocator call outside) and the modular body contract; "
-           "the composition rule itself is not machine-checked")
+           "the composition itself is proved in verus/v_comp.rs and re-checked end to end on bounded sizes by verif_e2e.rs; trusted: that "
+           "the relations `*_runs` of v_comp.rs say what the call-protocol obligations say")
 MEMMOVE = ("byte-exact result of the intra-buffer memmove in remove/insert_str: inline storage complete (all 2^128 buffers), heap storage "
            "at concrete capacities only (class B) - CBMC does not terminate on a memmove inside an object of symbolic size")
 
@@ -130,7 +131,7 @@ prop("C01", level="proof",
            "functions for arbitrary well-formed pre-states of every storage kind (symbolic capacity/length/refcount/stale bytes), with the "
            "sequence semantics of String written as the post-condition; V-HIST (Verus) lifts the triples to every finite history over any "
            "number of handles.",
-     functions=REPR_CORE + REPR_EDIT + REPR_CTOR + REPR_VIEW + LIB, verus=["v_hist"],
+     functions=REPR_CORE + REPR_EDIT + REPR_CTOR + REPR_VIEW + LIB, verus=["v_hist", "v_comp"],
      trust=["String's method semantics transcribed from its documentation as sequence equations", COMPOSE],
      bounded_notes=[{"what": MEMMOVE}, {"what": "retain: text <= 6 bytes (loop unwound)"}, {"what": "extend/collect: <= 3 items"}],
      not_covered=["iterator-driven operations beyond 3 items (each item is one push under contract)", "32-bit targets"])
@@ -141,7 +142,7 @@ prop("C02", level="proof",
            "exactly the handles that left/joined; borrowed static objects are byte-identical after every operation; realloc/in-place "
            "writes only when rc == 1 (allocator-stub obligations); V-HIST: text of every other handle unchanged by every step, for any "
            "number of handles with different lengths on one block.",
-     functions=REPR_CORE + REPR_EDIT + LIB, verus=["v_hist"], trust=[COMPOSE],
+     functions=REPR_CORE + REPR_EDIT + LIB, verus=["v_hist", "v_comp"], trust=[COMPOSE],
      not_covered=["panicking outcomes other than the bad-index panics of C07 (no unwinding in the verifier)"])
 
 prop("C03", level="proof",
